@@ -197,6 +197,14 @@ func analyze(w *World, q *Query) *Analysis {
 				break
 			}
 		}
+		// x − y == 0 is x == y
+		if l.Kind == KEqC && l.C == 0 && l.A.Op == "sum" && len(l.A.Args) == 2 && l.A.Name[0] != l.A.Name[1] {
+			x, y := l.A.Args[0], l.A.Args[1]
+			if x.s > y.s {
+				x, y = y, x
+			}
+			return Lit{Kind: KEq, A: x, B: y}
+		}
 		return l
 	}
 	// pass 1: enumerate effect sites; pass 2: with ¬E units
